@@ -168,7 +168,7 @@ def run(rep, tier, seed):
         e["P2SH_VERIF_REPL"] = "1"
         try:
             p = subprocess.run([core.P2SH], input=s["text"].encode("utf8"), stdout=subprocess.PIPE, stderr=subprocess.PIPE,
-                               timeout=60, env=e)
+                               timeout=300, env=e)
             s["out"] = p.stdout.decode("utf8", "replace")
             s["err"] = p.stderr.decode("utf8", "replace")
             s["rc"] = p.returncode
